@@ -84,7 +84,10 @@ func (s *SignedLatency) OnPing(pingReqID uint32) error {
 		mean += latency
 	}
 	mean = float32(math.Round(float64(mean) / float64(len(s.PingRequests))))
-	last = latencies[len(latencies)-1]
+	// The last latency is the one of the round that has just been answered,
+	// not whichever sample the map iteration happened to yield last.
+	lastRound := s.PingRequests[pingReqID]
+	last = float32(lastRound.End.Sub(lastRound.Start).Microseconds())
 
 	sort.Slice(latencies, func(i, j int) bool {
 		return latencies[i] < latencies[j]
